@@ -11,7 +11,7 @@
 //!   filters    `{{ v | f(k=a, ...) }}`
 //!   tests      `{{ v is t(k=a, ...) }}`
 //!   functions  `{{ fn(k=a, ...) }}`
-//!   strings    EVERY string of length <= 2 (thorough: <= 4) over 11 sharp characters through every
+//!   strings    EVERY string of length <= 3 (thorough: <= 5) over 11 sharp characters through every
 //!              string built-in with a menu of well-typed arguments (small-scope exhaustive)
 //!   partition  the type tests partition every value consistently (integer xor float iff number,
 //!              defined iff not undefined, iterable iff a `for` loop accepts it, odd xor even)
@@ -254,7 +254,7 @@ fn main() {
     run.assume("contracts are taken from docs/content/_index.md (Built-ins), MIGRATION.md and the doc comments of filters.rs/tests.rs/functions.rs; where they are silent only totality is asserted (wrong-kind receivers, empty patterns, collection filters that C16 owns)");
     run.assume("default cargo features of tera (no `unicode`): length/reverse/truncate count chars; HashMap-ordered outputs (keys/values/pairs/group_by) are compared modulo permutation");
     run.assume("rustc/std are trusted: char::to_uppercase/to_lowercase tables, str::parse::<f64> as the correctly rounded decimal->double conversion, integer/float casts; CPython Fraction arithmetic (oracles/round_oracle.py) is the authority for `round`");
-    run.assume("round: precision 0 must be exact; other precisions within 1 ulp (2 ulp for negative or >22 precisions, where 10^p is not a double) of k/10^p for the exactly rounded k, both neighbours accepted when value*10^p is within a relative 2^-48 of the decision point (binary artefacts such as 1.45|round(precision=1) are not flagged)");
+    run.assume("round: precision 0 must be exact; other precisions within 1 ulp (2 ulp for negative or >22 precisions, where 10^p is not a double) of k/10^p for the exactly rounded k, both neighbours accepted when value*10^p is within a relative 2^-48 (absolute 2^-1074) of the decision point; an error is accepted when 10^p or value*10^p leaves the range of normal doubles; infinities may stay or become NaN when precision != 0 (binary artefacts such as 1.45|round(precision=1) are not flagged)");
     run.assume("with two or more erroneous keyword arguments only totality is asserted; an undefined argument may be refused or treated as omitted; an integral float where an integer is documented may be refused or treated as the integer; an undeclared keyword argument may be refused or ignored");
     run.assume("libm (powi) is not under test; receivers and arguments are the stated alphabets, not all values");
 
@@ -331,7 +331,7 @@ fn main() {
     // Small-scope exhaustive: EVERY string up to a length bound over a sharp character alphabet
     // through every string built-in with a fixed menu of well-typed arguments.
     let chars: Vec<char> = vec!['a', 'A', ' ', '\n', '\r', 'é', '\'', '-', 'ß', '<', '&'];
-    let max_len: u32 = if thorough { 4 } else { 2 };
+    let max_len: u32 = if thorough { 5 } else { 3 };
     let mut n_strings = 0u64;
     for l in 0..=max_len {
         n_strings += (chars.len() as u64).pow(l);
